@@ -50,7 +50,8 @@ var propertyConfigs = map[string]*propertyConfig{
 			"Add / Sub / Mul with an integer scalar: the output records the scale of the input whatever the receiver held (finding F34), has the degree of the input, and addition copies the untouched components.  " +
 			"Mul with a ciphertext operand (BGV style, no relinearisation; receiver distinct or equal to either operand): the degree-2 tensor (a0*b0, a0*b1 + a1*b0, a1*b1), every component times the plaintext modulus T (the evaluator's RNS scalar, named, ASSUMED in double Montgomery form), out of the Montgomery domain, output of degree 2.  " +
 			"With a PLAINTEXT operand at equal scales: the plaintext takes part in the first component only (Add / Sub) or multiplies every component, times T (Mul); the other components are copied.  " +
-			"Rescale: on success the receiver has the degree of the input whatever degree it had (finding F40), the input's flags, no index is out of range (obligation kind index), and an input at level 0 is refused with an error.",
+			"MulRelin: the third component of the tensor goes through the gadget product with the key set's relinearisation key (both NAMED), degree 1; without a key set it returns an error in both styles and dereferences nothing nil (finding F43).  A product of operands of total degree 3 is refused.  MulThenAdd with a scalar: the accumulator keeps its degree and ends at the common level (finding F44).  Signed machine scalars (int64): their conversion never wraps (obligation kind overflow).  A receiver of higher degree than both operands gets the missing component cleared (finding F42).  " +
+			"Rescale: on success the receiver has the degree of the input whatever degree it had (finding F40), the input's flags, the input's scale divided by the consumed prime (named), rounded quotients of the input's components (named), no index is out of range (obligation kind index), and an input at level 0 is refused with an error.",
 		Assumptions: append(append([]string{}, engineBAssumptions...), "scales are compared and converted by TRUSTED leaves whose outcome is NAMED by uninterpreted functions of the scale's contents (cmpval, uf_scale64, uf_msb0/1): the contracts say which branch a comparison selects and which factors are applied, not what the factors are",
 			"Ring.MulScalar, MulScalarThenAdd / ThenSub, DivRoundByLastModulusNTT, Scale.Mul / Div and the big-integer scalar products are TRUSTED abstract leaves (ring-element reading of the row-level contracts of C01 / C02)",
 			"NOT decided: anything about programs (noise budget, exactness after decoding), the value of the scale-matching factors and of the recorded scale after scale matching, relinearisation, multiply-then-add, the scale-invariant (BFV) style, the scale recorded by a product, plaintext and vector operands, the VALUE of a rescaled component (rounded division is not a ring operation)"),
